@@ -473,6 +473,7 @@ static void fixed(void) {
 
 int main(int argc, char** argv) {
   probes_init();
+  pe_prop = "C02";
   big_cases = getenv("VH_BIG") != NULL;
   return vh_run(argc, argv, "table", fixed, case_random);
 }
